@@ -919,6 +919,11 @@ script main {
 }
 ''')
 
+# (d) a mapfile that gives a built-in enum const another value: the diagnostic has to mention a
+#     definition that has no location in any file
+for fmt, magic in [('ANM_12', '!anmmap'), ('STD_12', '!stdmap'), ('MSG_12', '!msgmap'), ('ECL_08', '!eclmap')]:
+    add('feature/%s-builtin-enum-const-redefined' % fmt.lower().replace('_', ''), fmt, mapfiles=[magic + '\n!enum(name="bool")\n5 true\n0 false\n'], main_body='')
+
 # --- seeded generated programs (tools/gen_programs.py): ids gen/<profile>-<k>, tag 'gen'
 import gen_programs
 for g in gen_programs.generate():
